@@ -590,6 +590,11 @@ impl Memfs {
         let link = self._abs(guard, link)?;
         let target = target.as_ref().to_owned();
 
+        // Never report success while keeping the target of an already existing link
+        if guard.get_entry(&link).map_or(false, |x| x.is_symlink()) {
+            return Err(PathError::exists_already(link).into());
+        }
+
         // Convert relative links to absolute to ensure they are clean
         let target = self._abs(guard, if !target.is_absolute() { link.dir()?.mash(target) } else { target })?;
 
